@@ -227,7 +227,11 @@ func (fs *fakeServer) handle(nc net.Conn) {
 			}
 			body, _ := desc.Marshal()
 			res.Header["Content-Type"] = base.HeaderValue{"application/sdp"}
-			res.Header["Content-Base"] = base.HeaderValue{req.URL.String() + "/"}
+			ustr := "rtsp://10.0.0.1:8554/stream"
+			if req.URL != nil { // a request line with "*" parses to a nil URL
+				ustr = req.URL.String()
+			}
+			res.Header["Content-Base"] = base.HeaderValue{ustr + "/"}
 			res.Body = body
 		case base.Announce:
 		case base.Setup:
@@ -377,7 +381,11 @@ func (fs *fakeServer) handle(nc net.Conn) {
 			}
 		case "request":
 			m := []base.Method{base.Options, base.GetParameter, base.Teardown, base.Setup, "REDIRECT"}[b.Arg%5]
-			r2 := &base.Request{Method: m, URL: req.URL, Header: base.Header{"CSeq": base.HeaderValue{"777"}}}
+			ru := req.URL
+			if ru == nil {
+				ru, _ = base.ParseURL("rtsp://10.0.0.1:8554/stream")
+			}
+			r2 := &base.Request{Method: m, URL: ru, Header: base.Header{"CSeq": base.HeaderValue{"777"}}}
 			buf, _ := r2.Marshal()
 			if !sendRaw(buf) || !send(res) {
 				return
@@ -426,7 +434,11 @@ func (fs *fakeServer) handle(nc net.Conn) {
 			}
 		case "redirect-loop":
 			if req.Method == base.Describe {
-				res = &base.Response{StatusCode: base.StatusMovedPermanently, Header: base.Header{"CSeq": req.Header["CSeq"], "Location": base.HeaderValue{req.URL.String()}}}
+				loc := "rtsp://10.0.0.1:8554/stream"
+				if req.URL != nil {
+					loc = req.URL.String()
+				}
+				res = &base.Response{StatusCode: base.StatusMovedPermanently, Header: base.Header{"CSeq": req.Header["CSeq"], "Location": base.HeaderValue{loc}}}
 			}
 			if !send(res) {
 				return
